@@ -31,15 +31,18 @@ LEVEL = 'exploration'
 RULE = ('programs of <=4 NumPy-API operations (all 78 function.HANDLED_FUNCTIONS entries + Array.__getitem__; helper index/shift nodes may add depth) over constants, Arguments and topology leaves, '
         'generated per (environment, target operation, index) from the seed: a systematic part (every operation as the last call, in each of 6 '
         'environments: function.eval without sample, plain, mixed-element, boundary, 2-space and 3-space product samples), random compositions, '
-        'hostile corners (out-of-range slices, several index arrays, negative transpose axes, abs of bool, interp with int fp and float left/right) '
-        'and shape perturbations that numpy rejects. non-trivial = at least one operation node was built on a function array, evaluated on the '
+        'hostile corners (out-of-range / reversed slices, several index arrays, negative transpose axes, abs of bool, interp with int fp and float '
+        'left/right), targeted negative function-valued indices into bases / stacked operands, direct calls of function.broadcast_shapes / '
+        'broadcast_arrays / typecast_arrays, and shape perturbations (one axis length of one operand) that numpy rejects. non-trivial = at least one operation node was built on a function array, evaluated on the '
         'sample and compared at every point (or, in reject mode, numpy rejected the perturbed shapes); distinct = hash of the program structure '
         '(environment, operations, forms, parameters, operand kinds and shapes; leaf values excluded)')
 ASSUMPTIONS = [
     'NumPy 2.x applied per point to independently known operand values is the reference',
     'operands are kept inside the domain where NumPy emits no warnings (no division by ~0, log<=0, arcsin outside (-.9,.9), singular matrices, branch cuts, kinks within 1e-6)',
     'function-valued indices / choose selectors are generated only in the supported form: integer expressions with provable bounds (element index, mod by a constant) that do not depend on the point coordinates',
-    'integer powers use constant non-negative exponents (nutils needs provable bounds); empty (size-0) operands are not generated',
+    'integer powers use constant non-negative exponents (nutils needs provable bounds); empty (size-0) arrays occur only as the result of a reversed slice, never as operands',
+    'build-time refusals of numpy-valid calls are not refuting events of this property: documented ones are counted (unsupported_documented), the others are listed (refused_undocumented)',
+    'a failure that disappears with evaluable.compile(_optimize=False) is attributed to the code generator (mechanism C07-optimized-mode-only, scope of C02)',
     'accepted nutils/NumPy differences are listed in coverage.accepted_differences',
 ]
 BUDGET_S = {'quick': 105, 'thorough': 1500}
@@ -49,6 +52,7 @@ SYS_PER = {'quick': 2, 'thorough': 40}          # targeted cases per (operation,
 RAND = {'quick': 1400, 'thorough': 36000}       # random compositions
 REJECT_PER = {'quick': 12, 'thorough': 120}     # rejection cases per shape-sensitive operation
 HOSTILE_PER = {'quick': 3, 'thorough': 20}      # per (hostile corner, environment)
+FNINDEX_PER = {'quick': 8, 'thorough': 80}      # per (take|getitem, environment): negative function-valued index into a basis / stacked operand
 HELPER_UNITS = {'quick': 4, 'thorough': 30}     # x100 direct calls of function.broadcast_shapes / broadcast_arrays / typecast_arrays
 CHUNK = 40
 # evaluation on product samples is 5-10x more expensive (nested point loops in the generated code): fewer cases there
@@ -97,6 +101,9 @@ def plan(tier, seed):
         units.append(dict(kind='reject', ops=SHAPE_SENSITIVE[k:k + 4], n=REJECT_PER[tier]))
     for h in HOSTILE:
         units.append(dict(kind='hostile', which=h, n=HOSTILE_PER[tier]))
+    for env in ENV_NAMES:
+        if env != 'const':
+            units.append(dict(kind='fnindex', env=env, n=FNINDEX_PER[tier]))
     names = sorted(OPS)
     sysunits = []
     for env in ENV_NAMES:
@@ -326,6 +333,17 @@ def run_unit(u, seed, res, ctx):
                 res.count('cases/reject')
     elif u['kind'] == 'helpers':
         run_helpers(u, seed, res, ctx)
+    elif u['kind'] == 'fnindex':
+        for opname in ('take', 'getitem'):
+            for i in range(u['n']):
+                if ctx.expired():
+                    res.count('cases_skipped_deadline')
+                    continue
+                key = ['fnindex', u['env'], opname, i]
+                rng = rng_for(seed, 'c07', *key)
+                case = c07_gen.generate(u['env'], rng, res, target=opname, nops=int(rng.choice([1, 2])), force_fn=True)
+                finish(case, res, key)
+                res.count('cases/fnindex')
     elif u['kind'] == 'hostile':
         which = u['which']
         fid = {'oob_slice': 'C07-slice-bounds-not-clamped', 'multi_array': 'C07-multi-index-array-outer', 'transpose_negative': 'C07-transpose-negative-axes',
@@ -711,4 +729,4 @@ def expected_cases(tier):
     from vlib.c07_ops import OPS
     from vlib.c07_env import ENV_NAMES
     from vlib.c07_gen import SHAPE_SENSITIVE, HOSTILE
-    return 100 * HELPER_UNITS[tier] + int(len(OPS) * sum(max(1, int(round(SYS_PER[tier] * ENV_WEIGHT[e]))) for e in ENV_NAMES)) + RAND[tier] + int(.5 * len(SHAPE_SENSITIVE) * REJECT_PER[tier]) + len(HOSTILE) * len(ENV_NAMES) * HOSTILE_PER[tier]
+    return 100 * HELPER_UNITS[tier] + 2 * 5 * FNINDEX_PER[tier] + int(len(OPS) * sum(max(1, int(round(SYS_PER[tier] * ENV_WEIGHT[e]))) for e in ENV_NAMES)) + RAND[tier] + int(.5 * len(SHAPE_SENSITIVE) * REJECT_PER[tier]) + len(HOSTILE) * len(ENV_NAMES) * HOSTILE_PER[tier]
